@@ -735,11 +735,15 @@ fn gcd_lcm_full16<T: Ty>() -> Stats {
 // ---------------------------------------------------------------------------------------------
 // egcd
 
-/// The property's domain: the mathematical intermediate values fit the type.  The coefficients and the
-/// products formed by the recursion are bounded by |c|·max(|a|,|b|); a factor 4 of slack is demanded.
+/// The property's domain: "magnitudes for which the mathematical intermediate values fit the integer type".
+/// Which intermediates occur depends on the algorithm (the crate's recursion stays below |c|·max(|a|,|b|), a
+/// solver that canonicalises x into [0, |b/g|) forms a·x up to |a|·|b| and x0·(c/g) up to |b|·|c|), so the
+/// bound must not be tailored to one of them: the property's own quantifier — the cube |a|,|b|,|c| <= 2^20
+/// over i64 — allows the product of all three operands with a factor 4 of slack (2^62), and the same rule
+/// is applied to every type.  (The first version demanded only 4·|c|·max(|a|,|b|) <= MAX and raised a false
+/// alarm on a property-preserving rewrite of egcd for i32 operands around 2^16..2^18.)
 fn egcd_in_domain<T: Ty>(a: Z, b: Z, c: Z) -> bool {
-    let m = a.1.max(b.1).max(1);
-    match c.1.max(1).checked_mul(m).and_then(|v| v.checked_mul(4)) {
+    match a.1.max(1).checked_mul(b.1.max(1)).and_then(|v| v.checked_mul(c.1.max(1))).and_then(|v| v.checked_mul(4)) {
         Some(v) => T::make(false, v).is_some(),
         None => false,
     }
@@ -804,7 +808,7 @@ fn egcd_boundary_mags() -> Vec<u128> {
 }
 
 /// All triples of boundary values (both signs) up to 2^20, except a = b = 0 and the triples inside the cube.
-/// On i32 the domain bound 4*|c|*max(|a|,|b|) <= MAX cuts through this set, so the in-domain triples closest
+/// On i32 the domain bound 4*|a|*|b|*|c| <= MAX cuts through this set, so the in-domain triples closest
 /// to the bound are executed (what the overflow-checking build needs); the others are skipped and counted.
 fn egcd_boundary<T: Ty>(cube: u128) -> Stats {
     let vals = signed_vals::<T>(&egcd_boundary_mags());
@@ -837,9 +841,10 @@ fn egcd_boundary<T: Ty>(cube: u128) -> Stats {
 // ---------------------------------------------------------------------------------------------
 // crt
 
+/// as for egcd: crt solves m1·x − m2·y = a2 − a1 with |a2 − a1| < max(m1, m2)
 fn crt_in_domain<T: Ty>(m1: u128, m2: u128) -> bool {
     let m = m1.max(m2);
-    match m.checked_mul(m).and_then(|v| v.checked_mul(4)) {
+    match m1.checked_mul(m2).and_then(|v| v.checked_mul(m)).and_then(|v| v.checked_mul(4)) {
         Some(v) => T::make(false, v).is_some(),
         None => false,
     }
